@@ -295,3 +295,22 @@ PLAN["C02"]["units"] = PLAN["C02"]["units"] + ["hypercorn.config:Config.response
 # C07 "the connection's handler finishes ... as soon as its applications return": an application
 # that returns always makes its stream report StreamClosed (unless it is closed already)
 PLAN["C07"]["units"] = PLAN["C07"]["units"] + [HS + "app_send"]
+
+# Session-3 audit of the anchors of every property against its plan: units that the anchors name,
+# that are under contract, and that the plan of that property had left out (their obligations
+# were judged only by other properties' checks)
+# C01 "exactly one application instance is started" / "per-instance receive queue": both spawn_app
+PLAN["C01"]["units"] = PLAN["C01"]["units"] + [ATG + "TaskGroup.spawn_app", TTG + "TaskGroup.spawn_app"]
+# C02 "serialise through h2 under flow control": the send task and the rest of StreamBuffer
+PLAN["C02"]["units"] = PLAN["C02"]["units"] + [HP + "send_task", SB + "__init__", SB + "close", SB + "drain"]
+# C05 "_handle wraps the app, logs, and always signals completion with send(None)"
+PLAN["C05"]["units"] = PLAN["C05"]["units"] + [ATG + "_handle", TTG + "_handle"]
+PLAN["C09"]["units"] = PLAN["C09"]["units"] + [HP + "_flush"]
+# C10 "H11WSConnection passes bytes through after the upgrade"
+PLAN["C10"]["units"] = PLAN["C10"]["units"] + [H1W + "receive_data", H1W + "next_event"]
+PLAN["C10"]["trusted_base"] = PLAN["C10"]["trusted_base"] + LIB_H11
+# C12 "HTTP/2 relies on the h2 library's outbound validation": what H2Protocol.stream_send hands to h2
+PLAN["C12"]["units"] = PLAN["C12"]["units"] + [HP + "stream_send"]
+PLAN["C12"]["trusted_base"] = PLAN["C12"]["trusted_base"] + LIB_H2
+# C15 "H2 ... sends GOAWAY once idle after termination", "idle timer fires immediately on terminated"
+PLAN["C15"]["units"] = PLAN["C15"]["units"] + [HP + "stream_send", ATS + "_initiate_server_close", TTS + "_initiate_server_close"]
